@@ -23,7 +23,7 @@ func init() {
 	fw.Register(&fw.Check{
 		ID:    "C17",
 		Level: "exploration",
-		Rule: "metadata graphs of 4-40 nodes are generated with a side table (payload string per node, reference lists, distinct flags, sparse explicit IDs, inline nodes, self/forward/cyclic references, attachments on globals, functions and instructions, named metadata defined 1-3 times). Text side: after asm.ParseString every reference slot must be the very object listed under that ID in MetadataDefs and carry the payload of the intended node, distinct and inline/numbered placement must be as written, repeated named metadata must be merged in textual order, and LLVM must read input and printed output alike (canonical form). API side: the same graph built through the Go API with a mix of explicit and unassigned (-1) IDs is printed: definitions must have unique IDs, explicit IDs must be kept, unassigned nodes must get the smallest unused IDs in list order, and the re-parsed module must be structurally identical. The clang -g corpus and the metadata atoms add realistic debug-info graphs: identity census on every reference, and reference conservation - for every ID N the number of `!N` reference tokens in the text must equal the number of edges of the parsed object graph that point at the object listed as !N (no reference dropped, copied into a fresh node, or bound to another object). " +
+		Rule: "metadata graphs of 4-40 nodes are generated with a side table (payload string per node, reference lists, distinct flags, sparse explicit IDs, inline nodes, self/forward/cyclic references, attachments on globals, functions and instructions, named metadata defined 1-3 times). Text side: after asm.ParseString every reference slot must be the very object listed under that ID in MetadataDefs and carry the payload of the intended node, distinct and inline/numbered placement must be as written, repeated named metadata must be merged in textual order, and LLVM must read input and printed output alike (canonical form). API side: the same graph built through the Go API with a mix of explicit and unassigned (-1) IDs is printed: definitions must have unique IDs, explicit IDs must be kept, unassigned nodes must get the smallest unused IDs in list order, and the re-parsed module must be structurally identical. The clang -g corpus and the metadata atoms add realistic debug-info graphs: identity census on every reference, and reference conservation - for every ID N the number of `!N` reference tokens in the text must equal the number of edges of the parsed object graph that point at the object listed as !N (no reference dropped, copied into a fresh node, or bound to another object), and the same count for the printed text against the printed graph (no reference spelled out inline). " +
 			"non-trivial = a graph with at least one forward or cyclic reference; distinct by graph text",
 		Gen:           genC17,
 		MinNontrivial: 100,
@@ -595,6 +595,12 @@ func c17Corpus(r *fw.Rec, s corpus.Source) {
 	r.TallyN("references", "corpus:cyclic.metadata", c.Refs["cyclic.metadata"])
 	y, pp := printGuard(m)
 	if pp != "" {
+		return
+	}
+	// the same conservation on the printing side: every edge to a numbered
+	// definition is written as `!N` (not spelled out inline, not dropped)
+	if key, what := c17RefConservation(y, m); key != "" {
+		r.Violate(fw.Violation{Key: "corpus-printed-" + key + "/" + s.ID, Input: text, What: "in the printed module, " + what, Observed: y})
 		return
 	}
 	seen := map[string]bool{}
